@@ -832,6 +832,14 @@ func (t *StreamUnderlay) drainAfterError() {
 	timeoutMillis := rng.IntRange(1000, 10000)
 	timeoutMillis += rng.FixedIntVH(50000) // Maximum 60 seconds.
 	t.conn.SetReadDeadline(time.Now().Add(time.Duration(timeoutMillis) * time.Millisecond))
+	// Close() closes done before it resets the read deadline for the last
+	// time. Checking done after arming the deadline guarantees that either
+	// this check or the read below observes the shutdown.
+	select {
+	case <-t.done:
+		return
+	default:
+	}
 
 	// Determine the read buffer size.
 	bufSizeType := rng.FixedIntVH(4)
